@@ -30,7 +30,7 @@ def params_for(rng, quick):
                 l2=rng.choice([{}, {}, {}, {"ip6_ext": 1}, {"ip4_opts": 1}, {"eth_pad": 1}, {"eth_fcs": 1}]),
                 init_token=rng.choice([0, 0, 5, 37]), len_width=rng.choice([None, 2, 4, 8]),
                 migrate_at=rng.choice([None, None, None, 5, 7]), ts_equal=rng.random() < 0.25, own_noise=rng.random() < 0.25,
-                ts_step=rng.choice([None, None, 1, 2]))        # capture times 1 or 2 microseconds apart (a burst) are still distinct times
+                ts_step=rng.choice([None, None, 1, 2]), same_ports=rng.random() < 0.15, sport=rng.choice([443, 443, 443, 4433, 50000]))        # capture times 1 or 2 microseconds apart (a burst) are still distinct times
 
 
 def _sublist(a, b):
@@ -153,6 +153,11 @@ def run(chk):
             p.update(cid_switch=False, migrate_at=None, own_noise=False, ts_equal=False)
         return p
     jobs = [(b, rng.randrange(1 << 30), params(b), rng.choice([[], [], ["-m"], ["-m", "443:9443"]])) for b in behs]
+    # greased QUIC bit (RFC 9287): the client sends the transport parameter, the server clears the bit in most of its packets, the tool runs with -g
+    for j in range(0, len(jobs), 7):
+        b, sd, pm, op = jobs[j]
+        if not any(pk["t"] == "N" for dg in b["hist"] for pk in dg["pkts"]):
+            jobs[j] = (b, sd, dict(pm, grease_bit=True, tp_grease=True), op + ["-g"])
     results = pool_map(_one, jobs)
     traces = []
     for res in results:
